@@ -42,7 +42,7 @@ BUDGETS = {'C01': (75, 1200, 10), 'C02': (75, 1200, 10), 'C20': (75, 1200, 10)}
 LEVELS = {'C01': 'exploration', 'C02': 'exploration', 'C20': 'exploration'}
 WALL_LIMIT = {('C02', 'quick'): 240, ('C02', 'thorough'): 240}
 PROBES = {
-    'C01': ['page_with_over_1000_links', 'linked_and_embedded', 'cycle', 'diamond', 'self_link', 'duplicate_link', 'alt_spelling', 'redirect', 'requisites', 'css_url', 'concurrency>1',
+    'C01': ['more_workers_than_connections_per_host', 'server_closes_after_every_response', 'page_with_over_1000_links', 'linked_and_embedded', 'cycle', 'diamond', 'self_link', 'duplicate_link', 'alt_spelling', 'redirect', 'requisites', 'css_url', 'concurrency>1',
             'depth_limited', 'no_parent', 'regex', 'multi_start', 'redirect_target_also_linked', 'depth_race_possible', 'keepalive_off'],
     'C02': ['ftp_links_offered', 'ftp_link_followed', 'ftp_scope_variant', 'ftp_glob', 'ftp_file_fetched', 'robots_fetch_failed', 'robots_redirected_out', 'robots_redirect_followed', 'offered_foreign_host', 'offered_upward_path', 'offered_deep', 'offered_regex_rejected', 'offered_excluded_dir',
             'offered_rejected_suffix', 'cross_host_redirect', 'waiver_used', 'retry', 'requests_attributed', 'span_hosts_allow',
@@ -932,13 +932,20 @@ def run(tape, prop, tier):
             site, starts, opts = gen_c01(tape, tier)
         else:
             site, starts, opts, flaky = gen_c02(tape, tier)
-        concurrency = tape.choice((1, 2, 3, 4), 'concurrency')
+        # (more workers than connections per host - 6 - make workers wait for one another's connections)
+        concurrency = tape.choice((1, 2, 3, 4, 8, 12), 'concurrency')
         dbpath = os.path.join(sandbox, 'db.sqlite')
         argv = argv_for(opts, [s.url for s in starts], dbpath)
+        no_keepalive = tape.chance(1, 4, 'srv.no_keepalive')       # a server that closes after every response
 
         ftp_servers = []
 
         def setup(h, server, net):
+            if no_keepalive:
+                h.keepalive_server = False
+                r.probes['server_closes_after_every_response'] += 1
+            if concurrency > 6:
+                r.probes['more_workers_than_connections_per_host'] += 1
             if getattr(site, 'ftp_tree', None) is not None and prop == 'C02':
                 from harness import ftpcrawl
                 ftp_servers.append(ftpcrawl.FtpTreeServer(h, net, site.ftp_tree, mlsd=tape.chance(1, 2, 'site.ftp.mlsd')))
